@@ -1,10 +1,12 @@
 (** Findings triage (dfx): validation of scope prefixes (C11-K12, repaired by "fix: validation
     rejects a scope prefix that names the same variable twice").
-    [validate] of Model/ParserFiles.v transcribes Frugal.validate; its last conjunct,
-    [validate_scopes], transcribes validateScopes / validateScopeTypes. *)
+    [validate] of Model/ParserFiles.v is [cvalidate] of Model/CompilerValidate.v (the one
+    transcription of Frugal.validate) with the diagnostic text forgotten; its last conjunct,
+    [rall (check_scope rf) (fr_scopes f)], transcribes validateScopes / validateScopeTypes. *)
 From Coq Require Import ZArith List Bool String.
 From FV Require Import Model.PegSyntax Model.Peg Model.ParserStrings Model.ParserAst Model.ParserActions
      Model.Parser Model.ParserFiles Proofs.ParserProofs.
+From FV Require Import Model.CompilerValidate Proofs.CompilerValidateProofs Proofs.ParserFilesProofs.
 Import ListNotations.
 Open Scope Z_scope.
 
@@ -30,50 +32,46 @@ Proof.
       contradiction.
 Qed.
 
-Lemma vand_ok a b : vand a b = VOk -> a = VOk /\ b tt = VOk.
-Proof. destruct a; cbn [vand]; intro H; try discriminate. split; [reflexivity | exact H]. Qed.
-
-Lemma vall_ok {X} (p : X -> vres) (l : list X) : vall p l = VOk -> forall x, In x l -> p x = VOk.
-Proof.
-  induction l as [|y t IH]; cbn [vall]; intros H x Hin; [destruct Hin|].
-  apply vand_ok in H. destruct H as [Hy Ht]. destruct Hin as [->|Hin]; [exact Hy | apply IH; assumption].
-Qed.
-
-Lemma of_bool_ok b : of_bool b = VOk -> b = true.
-Proof. destruct b; [reflexivity | discriminate]. Qed.
-
-Lemma validate_reaches_scopes f incs : validate f incs = VOk -> validate_scopes f incs = VOk.
-Proof.
-  unfold validate. intro H.
-  repeat (apply vand_ok in H; destruct H as [_ H]). exact H.
-Qed.
-
 (** a file that passes validation names every prefix variable once, in every scope; and every
     operation type of every scope is valid (not a panic, not an error) *)
 Lemma validate_prefix_variables_distinct f incs :
-  validate f incs = VOk ->
+  ParserFiles.validate f incs = VOk ->
   forall s, In s (fr_scopes f) ->
     NoDup (p_vars (sc_prefix s))
-    /\ forall o, In o (sc_ops s) -> valid_type f incs (o_type o) = Some true.
+    /\ forall o, In o (sc_ops s) -> valid_ty (reduce f incs) (o_type o) = true.
 Proof.
-  intros H s Hin. apply validate_reaches_scopes in H. unfold validate_scopes in H.
-  pose proof (vall_ok _ _ H s Hin) as Hs. unfold validate_scope in Hs.
-  apply vand_ok in Hs. destruct Hs as [Hd Hops]. split.
-  - apply of_bool_ok in Hd. apply negb_true_iff in Hd. apply has_dup_false_NoDup. exact Hd.
-  - intros o Ho. pose proof (vall_ok _ _ Hops o Ho) as Hv. cbn beta in Hv.
-    destruct (valid_type f incs (o_type o)) as [[|]|]; cbn [of_type] in Hv; try discriminate. reflexivity.
+  intros H s Hin. pose proof (validate_ok_facts f incs H) as F. split.
+  - exact (vf_prefix_vars _ _ _ F s Hin).
+  - intros o Ho. exact (vf_ops _ _ _ F s o Hin Ho).
 Qed.
 
 (** conversely a duplicate is an error, never a panic and never accepted *)
-Lemma validate_scope_dup_rejected f incs s :
-  has_dup (p_vars (sc_prefix s)) = true -> validate_scope f incs s = VErr.
-Proof. intro H. unfold validate_scope. rewrite H. reflexivity. Qed.
+Lemma first_dup_var_some vars : forall seen,
+  has_dup vars = true \/ (exists x, In x vars /\ In x seen) -> exists v, first_dup_var seen vars = Some v.
+Proof.
+  induction vars as [|x t IH]; intros seen H.
+  - destruct H as [H|(z & [] & _)]. discriminate.
+  - cbn [first_dup_var]. destruct (existsb (beqb x) seen) eqn:E; [eauto|].
+    apply IH. destruct H as [H|(z & [<-|Hz] & Hs)].
+    + cbn [has_dup] in H. apply orb_true_iff in H as [H|H]; [|left; exact H].
+      right. apply existsb_exists in H as (y & Hy & Hxy). apply dfx_beqb_true_iff in Hxy. subst y.
+      exists x. split; [exact Hy|left; reflexivity].
+    + assert (existsb (beqb x) seen = true) as X; [|congruence].
+      apply existsb_exists. exists x. split; [exact Hs|apply dfx_beqb_true_iff; reflexivity].
+    + right. exists z. split; [exact Hz|right; exact Hs].
+Qed.
+
+Lemma check_scope_dup_rejected rf s :
+  has_dup (p_vars (sc_prefix s)) = true -> exists m, check_scope rf s = RErr m.
+Proof.
+  intro H. destruct (first_dup_var_some _ [] (or_introl H)) as [v E]. unfold check_scope. rewrite E. cbn [rand]. eauto.
+Qed.
 
 Open Scope string_scope.
 
 (** on program text, through the PEG parser: the program of the finding is rejected by ParseFrugal,
     the same program with two different variables is accepted; the validation before the repair
-    ([validate_scopes_pinned]) accepted the parsed scopes of the first *)
+    ([check_scope_pinned]) accepted the parsed scopes of the first *)
 Definition dfx_dup_prefix_text : bytes :=
   cat [idl "struct E {}"; idl "scope Sc prefix a.{zone}.{zone} { op: E }"].
 Definition dfx_two_vars_text : bytes :=
@@ -87,10 +85,10 @@ Lemma dup_prefix_variable_rejected :
 Proof. vm_compute. split; reflexivity. Qed.
 
 Lemma dup_prefix_variable_accepted_pinned :
-  exists f, parse_idl dfx_dup_prefix_text = POk f
+  exists f, parse_idl dfx_dup_prefix_text = Parser.POk f
     /\ map (fun s => p_vars (sc_prefix s)) (fr_scopes f) = [[dfx_zone; dfx_zone]]
-    /\ validate_scopes_pinned f [] = VOk
-    /\ validate_scopes f [] = VErr.
-Proof. eexists. vm_compute. repeat split; reflexivity. Qed.
+    /\ rall (check_scope_pinned (reduce f [])) (fr_scopes f) = ROk
+    /\ exists m, rall (check_scope (reduce f [])) (fr_scopes f) = RErr m.
+Proof. eexists. vm_compute. repeat split; try reflexivity. eexists. reflexivity. Qed.
 
 Close Scope string_scope.
